@@ -1352,4 +1352,9 @@ def json_short(o):
 P.tie_modules = ["TracklibVerif.Tie.C03"]
 P.theorems = P.theorems + [
     ("TracklibVerif.Tie.C03", "TV.Tie.C03.tie_isLeapYear", "the Lean translation of the CURRENT source of ObsTime.isLeapYear equals the model's isLeap on every year >= 0"),
+    ("TracklibVerif.Tie.C03", "TV.Tie.C03.tie_toAbsTime", "the Lean translation of the CURRENT source of ObsTime.toAbsTime (both for loops, the table lookups, the integer accumulator) returns the model's toAbsG on every stamp with month <= 13"),
+    ("TracklibVerif.Tie.C03", "TV.Tie.C03.tie_toAbsTime_index", "error correspondence: for month >= 14 the translated toAbsTime raises IndexError (the model's toAbsG is total there)"),
+    ("TracklibVerif.Tie.C03", "TV.Tie.C03.tie_toAbsTime_total", "on EVERY stamp the translated toAbsTime is the model's toAbsGE: the value toAbsG for month <= 13, IndexError from month 14 on"),
+    ("TracklibVerif.Tie.C03", "TV.Tie.C03.tie_readUnixTime_modelFuel", "the Lean translation of the CURRENT source of ObsTime.readUnixTime (while-True year loop, month loop with break, truncations), run with the model's fuel int(e/31536000)+1, returns the attributes of readUnixG's stamp and is out of fuel exactly when the model is"),
+    ("TracklibVerif.Tie.C03", "TV.Tie.C03.tie_readUnixTime", "whenever the model readUnixG returns a stamp, the translated readUnixTime returns its attributes for EVERY fuel >= the model's bound"),
 ]
